@@ -69,6 +69,12 @@ func (ctx *Ctx) cloop(r *node, _ []node) {
 			if err == ErrBreakLoop || err == ErrContLoop {
 				break
 			}
+			if err != nil && err != ErrLBreakLoop {
+				// The rule failed: stop the loop and report the failure.
+				ctx.chQB = false
+				ctx.Err = err
+				return
+			}
 		}
 		ctx.chQB = false
 
